@@ -59,10 +59,15 @@ def gen(rng, n, tier):
         if r < 0.3:
             kind = rng.choice(["random", "scalefree", "grid"])
             nv = rng.choice([4, 9]) if kind == "grid" else rng.randint(2, 10)
+            sub = rng.random() < 0.4
+            if kind == "random" and rng.random() < 0.1:
+                nv = 1                    # boundary: a single isolated node
             c = dict(kind="gc", graph=kind, variables_count=nv,
                      colors_count=rng.choice([1, 2, 2, 3, 3, 4, 5, 8, 9]),
-                     p_edge=rng.choice([0.3, 0.5, 0.8]), m_edge=rng.randint(1, max(1, min(3, nv - 1))),
-                     allow_subgraph=rng.random() < 0.3, soft=rng.random() < 0.4,
+                     # sparse graphs with isolated nodes when disconnected sub-graphs are allowed
+                     p_edge=rng.choice([0.05, 0.1, 0.2, 0.3, 0.5]) if sub else rng.choice([0.3, 0.5, 0.8]),
+                     m_edge=rng.randint(1, max(1, min(3, nv - 1))),
+                     allow_subgraph=sub, soft=rng.random() < 0.4,
                      intentional=rng.random() < 0.4, noagents=rng.random() < 0.3,
                      seed=rng.randint(0, 10 ** 9))
             if kind == "grid" and rng.random() < 0.05:
@@ -320,7 +325,8 @@ def oracle(c, o):
             return "generate accepted invalid arguments"
         n = c["variables_count"]
         if len(o["nodes"]) != n:
-            return None          # networkx returned another node count (scalefree relabelling): outside
+            return ("the graph handed to the constraint generators has %d nodes, %d variables requested "
+                    "(nodes lost while drawing / relabelling the graph)" % (len(o["nodes"]), n))
         exp_vars = ["v%02d" % i for i in range(n)]
         if o["vars"] != exp_vars or o["var_names"] != exp_vars:
             return "variables %r, expected %r" % (o["vars"], exp_vars)
